@@ -29,9 +29,10 @@ def lifecycle_scenarios(n_producers, dispatchers=("backtesting", "realtime"), fu
         combos = rnd.sample(combos, sample)
     for ps in combos:
         for disp in dispatchers:
-            exits = ["stop", "handler_error", "cancel"] + (["exhaust"] if disp == "backtesting" else [])
+            # "stop2": stop() is requested once before run() and once more while it is running
+            exits = ["stop", "handler_error", "cancel", "stop2"] + (["exhaust"] if disp == "backtesting" else [])
             for x in exits:
-                for inflight in ([False, True] if x != "exhaust" else [False]):
+                for inflight in ([False, True] if x not in ("exhaust", "stop2") else [False]):
                     if disp == "backtesting" and x == "cancel" and not inflight:
                         continue          # a backtest without anything in flight is over before it can be cancelled
                     out.append({"dispatcher": disp, "producers": [list(p) for p in ps], "exit": x, "inflight": inflight,
@@ -119,7 +120,14 @@ async def _run_lifecycle(sc):
     lg.setLevel(logging.CRITICAL + 1)
     outcome = None
     detail = ""
+    if x == "stop2":
+        d.stop()
     task = asyncio.ensure_future(d.run(stop_signals=[]))
+    if x == "stop2":
+        async def stopper():
+            await asyncio.sleep(0.03)
+            d.stop()
+        asyncio.ensure_future(stopper())
     if x == "cancel":
         async def canceller():
             await asyncio.sleep(0.03)
@@ -201,7 +209,8 @@ def coq_lifecycle_item(sc, log, outcome):
         return (f"(mkP {i}%nat {'IOk' if b[0] == 'ok' else 'IRaise'} "
                 f"{ {'return': 'MReturn', 'raise': 'MRaise', 'block': 'MBlock'}[b[1]]} {'FOk' if b[2] == 'ok' else 'FRaise'})")
     ps = listlit([beh(i, b) for i, b in enumerate(sc["producers"])])
-    x = {"exhaust": "XExhaust", "stop": "XStop", "handler_error": "XHandlerError", "cancel": "XCancel"}[sc["exit"]]
+    x = {"exhaust": "XExhaust", "stop": "XStop", "stop2": "XStop", "handler_error": "XHandlerError",
+         "cancel": "XCancel"}[sc["exit"]]
     oi = listlit([f"(CInit {r[1]}%nat)" for r in log if r[0] == "I"])
     om = listlit([f"(CMain {r[1]}%nat)" for r in log if r[0] == "M"])
     of = listlit([f"(CFin {r[1]}%nat)" for r in log if r[0] == "F"])
